@@ -21,11 +21,14 @@ META = {
         "n in {4,8,16,32} (thorough: 64) plus breadth families (chains/lists of n items); ~75 fixed families derived from the "
         "grammar's recursion structure + Hypothesis-drawn wrapper mixtures (valid and invalid).  Oracle: work(n) <= 3000*tokens(n) "
         "+ 20000 for every n, and work(2n)/work(n) <= 2.6 at the two largest n; a family exceeding the 3e6-operation cap is cut off "
-        "and reported.  work = getnext+peek+reset counts.  non-trivial = largest instance has >= 60 tokens and nesting >= 16 (or >= 64 "
+        "and reported.  Runs of 64..512 (1024) compound statements of 9 kinds are measured the same way, and 'late' families put a nest of "
+        "depth 4..12 (16) after a prefix of >= 10000 tokens and bound the work the nest ADDS (total minus the same input at depth 1) by the same per-token "
+        "bound.  work = getnext+peek+reset counts + every element handed out by the tokenizer's token cache (index, slice, iteration, copy: a "
+        "counting list installed in the Tokenizer subclass).  non-trivial = largest instance has >= 60 tokens and nesting >= 16 (or >= 64 "
         "items for breadth families); distinct by pattern."
     ),
     "assumptions": [
-        "work is proxied by tokenizer-level counters (every rule invocation that does anything touches the tokenizer)",
+        "work is proxied by tokenizer-level counters (every rule invocation that does anything touches the tokenizer) plus reads of the token cache; work done inside other C-level primitives (dict resizing, string joins) is not counted",
         "harness recursion limit 20000: families whose largest instance overflows even that are reported as inconclusive",
     ],
 }
@@ -40,6 +43,45 @@ class Cap(Exception):
     pass
 
 
+class CountingList(list):
+    """the tokenizer's token cache: every element handed out (index, slice, iteration, copy, search) is counted"""
+
+    __slots__ = ("reads",)
+
+    def __init__(self, *a):
+        super().__init__(*a)
+        self.reads = 0
+
+    def __getitem__(self, i):
+        r = list.__getitem__(self, i)
+        self.reads += len(r) if type(i) is slice else 1
+        return r
+
+    def __iter__(self):
+        self.reads += len(self)
+        return list.__iter__(self)
+
+    def __reversed__(self):
+        self.reads += len(self)
+        return list.__reversed__(self)
+
+    def __contains__(self, x):
+        self.reads += len(self)
+        return list.__contains__(self, x)
+
+    def copy(self):
+        self.reads += len(self)
+        return list.copy(self)
+
+    def index(self, *a):
+        self.reads += len(self)
+        return list.index(self, *a)
+
+    def __add__(self, other):
+        self.reads += len(self)
+        return list.__add__(self, other)
+
+
 _CT = None
 
 
@@ -49,13 +91,20 @@ def counting_tokenizer():
         Tokenizer = repo_modules()["TZ"].Tokenizer
 
         class CT(Tokenizer):
+            cap = CAP
+
             def __init__(self, *a, **k):
                 super().__init__(*a, **k)
                 self.n_get = self.n_peek = self.n_reset = 0
+                self._tokens = CountingList(self._tokens)
+
+            def work(self):
+                reads = self._tokens.reads if isinstance(self._tokens, CountingList) else 0
+                return self.n_get + self.n_peek + self.n_reset + reads
 
             def getnext(self):
                 self.n_get += 1
-                if self.n_get + self.n_peek + self.n_reset > CAP:
+                if self.work() > self.cap:
                     raise Cap()
                 return super().getnext()
 
@@ -71,19 +120,20 @@ def counting_tokenizer():
     return _CT
 
 
-def measure(src: str):
+def measure(src: str, cap: int = CAP):
     """(work, tokens, verdict) ; verdict in ok/syn/tok/CAP/recursion/hang/<Exception>"""
     m = repo_modules()
     tok = counting_tokenizer()(m["T"].generate_tokens(io.StringIO(src).readline))
+    tok.cap = cap
     p = m["P"].XonshParser(tok)
     try:
         with watchdog(120):
             p.parse("file")
         v = "ok"
     except Cap:
-        return (CAP, len(tok._tokens), "CAP")
+        return (cap, len(tok._tokens), "CAP")
     except SoftTimeout:
-        return (tok.n_get + tok.n_peek + tok.n_reset, len(tok._tokens), "hang")
+        return (tok.work(), len(tok._tokens), "hang")
     except SyntaxError:
         v = "syn"
     except m["T"].TokenError:
@@ -92,7 +142,7 @@ def measure(src: str):
         return (0, len(tok._tokens), "recursion")
     except Exception as e:  # noqa: BLE001  (C03's business; still measure)
         v = type(e).__name__
-    return (tok.n_get + tok.n_peek + tok.n_reset, len(tok._tokens), v)
+    return (tok.work(), len(tok._tokens), v)
 
 
 # ---- pattern language ---------------------------------------------------------------------------
@@ -156,6 +206,16 @@ FIXED = {
     "call_chain": lambda n: "a" + "(0)" * n + "\n",
     "subscript_chain": lambda n: "a" + "[0]" * n + "\n",
     "statements": lambda n: "a = 1\n" * n,
+    # runs of compound statements (every block ends in NEWLINE + DEDENT: the nodes' end positions are looked up behind them)
+    "if_blocks": lambda n: "if a:\n    b = 1\n" * n,
+    "def_blocks": lambda n: "def f(a):\n    return a\n" * n,
+    "for_else_blocks": lambda n: "for i in j:\n    k\nelse:\n    m\n" * n,
+    "with_blocks": lambda n: "with a as b:\n    c\n" * n,
+    "try_blocks": lambda n: "try:\n    a\nexcept E:\n    b\nfinally:\n    c\n" * n,
+    "class_blocks": lambda n: "class A(B):\n    x = 1\n    def m(self): pass\n" * n,
+    "while_nested_blocks": lambda n: "while a:\n    if b:\n        c\n    d\n" * n,
+    "match_blocks": lambda n: "match v:\n    case 1:\n        a\n    case _:\n        b\n" * n,
+    "with_macro_blocks": lambda n: "with! a:\n    b c\nd = 1\n" * n,
     "semicolons": lambda n: ";".join(["a = 1"] * n) + "\n",
     "string_pieces": lambda n: "x = " + " ".join(["'a'"] * n) + "\n",
     "assign_chain": lambda n: " = ".join(["a"] * n) + " = 1\n",
@@ -236,23 +296,76 @@ FIXED = {
 }
 BREADTH = {
     "dict_items", "list_items", "call_args", "call_kwargs", "binop_chain", "boolop_chain", "compare_chain", "attr_chain", "call_chain", "subscript_chain",
-    "statements", "semicolons", "string_pieces", "assign_chain", "target_tuple", "lambda_params", "def_params", "type_params", "decorators", "elif", "cases",
+    "statements", "if_blocks", "def_blocks", "for_else_blocks", "with_blocks", "try_blocks", "class_blocks", "while_nested_blocks", "match_blocks", "with_macro_blocks", "semicolons", "string_pieces", "assign_chain", "target_tuple", "lambda_params", "def_params", "type_params", "decorators", "elif", "cases",
     "match_or", "except_clauses", "with_items", "import_names", "global_names", "star_args", "subproc_words", "subproc_glued", "subproc_env", "pipes",
     "macro_args", "fstring_fields", "fstr_spec", "comp_fors", "comp_ifs", "slices_tuple", "help_chain", "and_or_xonsh", "chain_trailing_op", "args_bad_tail", "stmts_then_error",
 }
 
 
-def sizes(ctx_thorough: bool, breadth: bool):
+LONG_RUNS = {"statements", "if_blocks", "def_blocks", "for_else_blocks", "with_blocks", "try_blocks", "class_blocks", "while_nested_blocks", "match_blocks", "with_macro_blocks"}
+
+
+def sizes(ctx_thorough: bool, breadth: bool, name: str = ""):
+    if name in LONG_RUNS:  # position-dependent costs need length to show: up to a few thousand tokens
+        return (64, 128, 256, 512, 1024) if ctx_thorough else (64, 128, 256, 512)
     if breadth:
         return (16, 32, 64, 128, 256) if ctx_thorough else (16, 32, 64, 128)
     return (4, 8, 16, 32, 64) if ctx_thorough else (4, 8, 16, 32)
 
 
-def run_family(builder, ns):
+LONG_CAP = 40_000_000
+
+# ---- nesting that starts late in a long input: the cost of the nest must not depend on what precedes it -------------
+PREFIXES = {
+    "assignments": lambda: "".join(f"v{i} = f(a.b[{i}], c='s') + [d, e]\n" for i in range(900)),
+    "mixed": lambda: "".join(f"def g{i}(a, b=1):\n    if a:\n        return [a, b, {i}]\n    $(echo @(a) {i})\nw{i} = g{i}(1)\n" for i in range(260)),
+}
+LATE = {
+    "late_nested_if": lambda n: "".join(" " * i + "if a:\n" for i in range(n)) + " " * n + "x = 1\n",
+    "late_nested_try": lambda n: FIXED["nested_try"](n),
+    "late_tuple_target": lambda n: "(" * n + "a," + ")" * n + " = y\n",
+    "late_brackets": lambda n: "x = " + "[" * n + "a" + "]" * n + "\n",
+    "late_match_seq": lambda n: FIXED["match_seq"](n),
+    "late_call_kw": lambda n: "f(k=" * n + "a" + ")" * n + "\n",
+    "late_subproc": lambda n: FIXED["proc_py"](n),
+    "late_lambda": lambda n: "x = " + "lambda: " * n + "0\n",
+    "late_bad_paren": lambda n: FIXED["paren_bad"](n),
+}
+_PREFIX_WORK: dict = {}
+
+
+def check_late(rec, case):
+    pname, name = case["prefix"], case["name"]
+    prefix = PREFIXES[pname]()
+    if pname not in _PREFIX_WORK:
+        _PREFIX_WORK[pname] = measure(prefix, cap=LONG_CAP)
+    _, tp, v0 = _PREFIX_WORK[pname]
+    # baseline = the same construct at depth 1 after the same prefix (a rejected input is parsed twice, prefix included:
+    # that doubling belongs to the baseline, not to the nest)
+    w0, t0, v1 = measure(prefix + LATE[name](1), cap=LONG_CAP)
+    rows = []
+    for n in case.get("ns") or ((4, 8, 12, 16) if case.get("thorough") else (4, 8, 12)):
+        w, t, v = measure(prefix + LATE[name](n), cap=w0 + CAP)
+        rows.append((n, w - w0, t - t0, v))
+        if v in ("CAP", "recursion", "hang"):
+            break
+    klass = "invalid" if "bad" in name else "valid"
+    rec.case(case, v0 == "ok" and tp >= 10000, labels=(f"class:{klass}", "kind:late-nesting", f"prefix:{pname}"), key=("late", pname, name))
+    if v0 != "ok":
+        rec.inconclusive[f"late-prefix-not-parsed:{v0}"] += 1
+        return
+    for n, extra, toks, v in rows:
+        if v in ("CAP", "hang") or extra > K_PER_TOKEN * max(toks, 1) + K0:
+            what = "cap-exceeded" if v in ("CAP", "hang") else "per-token-bound"
+            rec.fail(dict(case, klass=klass), f"superlinear:{what}:{klass}:late-nesting", {"rows": rows, "at_n": n, "prefix_tokens": tp, "baseline_work": w0, "note": "work and tokens are those added by nesting deeper than 1 (total minus the same input with depth 1)"})
+            return
+
+
+def run_family(builder, ns, cap=CAP):
     rows = []
     for n in ns:
         src = builder(n)
-        w = measure(src)
+        w = measure(src, cap)
         rows.append((n, *w))
         if w[2] in ("CAP", "recursion", "hang"):
             break
@@ -279,6 +392,8 @@ def verdict(rows):
 
 def check(rec, case):
     thorough = case.get("thorough", False)
+    if case["kind"] == "late":
+        return check_late(rec, case)
     if case["kind"] == "fixed":
         name = case["name"]
         builder = FIXED[name]
@@ -289,8 +404,8 @@ def check(rec, case):
         builder = lambda n: build(kind, unit, core, tail, n)  # noqa: E731
         breadth = False
         invalid_tail = bool(tail)
-    ns = sizes(thorough, breadth)
-    rows = run_family(builder, ns)
+    ns = sizes(thorough, breadth, case.get("name", ""))
+    rows = run_family(builder, ns, LONG_CAP if case.get("name") in LONG_RUNS else CAP)
     largest = rows[-1]
     verdicts = {r[3] for r in rows}
     decided = verdicts - {"CAP", "hang", "recursion"}
@@ -330,6 +445,11 @@ SHRINK_FIELDS = ()
 def search(rec, ctx):
     for name in ctx.shard(sorted(FIXED)):
         check(rec, {"kind": "fixed", "name": name, "thorough": ctx.thorough})
+    late = [(p, n) for p in sorted(PREFIXES) for n in sorted(LATE)]
+    if not ctx.thorough:
+        late = [x for x in late if x[0] == "assignments" and x[1] in ("late_nested_if", "late_tuple_target", "late_match_seq", "late_brackets", "late_bad_paren", "late_subproc")]
+    for pname, name in ctx.shard(late):
+        check(rec, {"kind": "late", "prefix": pname, "name": name, "thorough": ctx.thorough})
 
     def pat(rnd):
         c = pattern_from(rnd)
